@@ -232,12 +232,14 @@ Theorem enr_name_out_substring name code w :
 Proof.
   intros Hne Hs Hst H. apply nostar_notin in Hst. unfold enr_name_out in H.
   destruct (is_business code).
-  - rewrite <- app_assoc in H. cbn [app] in H.
-    apply substring_app_sep in H as [H|H]; try assumption.
-    + now apply fmt_trim_substring in H.
-    + destruct (15 <? rune_count name)%nat.
+  - cbv zeta in H. destruct (15 <? rune_count name)%nat.
+    + rewrite <- app_assoc in H. cbn [app] in H.
+      apply substring_app_sep in H as [H|H]; try assumption.
+      * now apply fmt_trim_substring in H.
       * apply fmt_trim_substring in H; try assumption.
         destruct (skipn_substring 15 name) as [p Hp]. rewrite Hp. now apply substring_app_r.
+    + apply substring_app_sep in H as [H|H]; try assumption.
+      * now apply fmt_trim_substring in H.
       * apply substring_nil_inv in H. contradiction.
   - apply substring_join_nosep in H as (x & Hx & Hw); try assumption.
     apply surname_first_In, fields_substring in Hx.
